@@ -16,6 +16,7 @@ import re
 import vlib
 import c13_gen
 import c13_forms
+import c13_api_names
 from concurrent.futures import ThreadPoolExecutor
 
 ARCH_X86, ARCH_X64, ARCH_A64 = 0, 1, 2
@@ -82,6 +83,33 @@ def judge_names(ck, d, cmds, impl, model, stats):
     """correspondence (impl vs model) + independent oracle (python dictionary over the dumped tables)"""
     names = {"x86": c13_gen.all_names(d, "x86"), "a64": c13_gen.all_names(d, "a64")}
     aliases = dict(zip(c13_gen.alias_names(d), d["x86.alias_ids"]))
+    # emitter API methods vs the id they are bound to (python reading of the headers + name tables; the Coq twin is C13_api_methods_name_their_ids_*)
+    for arch_ in ("a64", "x86"):
+        n_m, bad = c13_api_names.check(vlib.REPO, arch_, names[arch_])
+        stats["api_methods_%s" % arch_] = n_m
+        for meth, idn, tbl in bad:
+            if tbl == "<no such id>" or (arch_ == "x86" and aliases.get(meth.rstrip("_")) is not None and names["x86"][aliases[meth.rstrip("_")]] == tbl):
+                continue          # condition-code dispatch macros (cmov/j/set), x86 aliases (sal -> shl)
+            ck.violation("C13/api-method-wrong-id/%s/%s" % (arch_, meth), "%s::Emitter::%s() is bound to Inst::kId%s, whose name is %r: the method emits a different instruction than it names"
+                         % (arch_, meth, idn, tbl), {"method": meth, "id": idn, "name": tbl})
+    # AArch64 cross-check with C02's database rows (coq/gen/IsaA64Db.v, read-only): mnemonics of rows C02 models vs AsmJit's name table
+    try:
+        t_ = open(os.path.join(vlib.COQ, "gen", "IsaA64Db.v")).read()
+        mm = re.search(r"mnemonics: (.*?)\n", t_)
+        c02 = set(x.split("=")[1] for x in mm.group(1).split())
+        a64n = set(names["a64"][1:])
+        stats["a64_names_with_c02_rows"] = len(a64n & c02)
+        stats["a64_names_without_c02_row"] = sorted(a64n - c02)
+        stats["c02_mnemonics_without_asmjit_id"] = len(c02 - a64n)
+        vend = set(read_corpus_lines("a64_names_without_c02_row.txt"))
+        for nm in sorted(a64n - c02):
+            if nm not in vend:
+                ck.violation("C13/a64-name-without-database-row/%s" % nm, "AArch64 instruction name %r has no row in the ISA database as modelled by C02 (coq/gen/IsaA64Db.v) and is not on "
+                             "corpus/C13/a64_names_without_c02_row.txt: the 'both accept it' half of C13 for AArch64 (C02's sweep) does not cover it" % nm, {"name": nm})
+        if os.environ.get("C13_VENDOR") == "1":
+            open(os.path.join(CORPUS, "a64_names_without_c02_row.txt"), "w").write("# C13: AArch64 names without a database row in C02's model (covered by the name round trip only)\n" + "".join(n + "\n" for n in sorted(a64n - c02)))
+    except (OSError, AttributeError):
+        stats["a64_names_with_c02_rows"] = "coq/gen/IsaA64Db.v not readable"
     derived = c13_gen.derived_aliases(d)       # independent source: the alias format strings of the main string table
     stats["aliases_cross_checked_with_format_strings"] = len([a for a in aliases if a in derived])
     stats["aliases_only_in_alias_table"] = sorted(a for a in aliases if a not in derived)
@@ -632,6 +660,52 @@ def source_drift(ck):
     return txt
 
 
+# ------------------------------------------------------------------ representative operands generated by the PROVEN function rep_ops, run against the real validator / assembler
+def run_row_representatives(ck, d, impl, model, stats):
+    rows = read_corpus_lines("db_rows_x86.txt")
+    names = c13_gen.all_names(d, "x86")
+    q = []
+    for k, l in enumerate(rows):
+        mode = int(l.split()[1])
+        for m in (0, 1):
+            if mode & (1 << m):
+                q.append("RR %d %d" % (k, m))
+    rm = run_sharded(model, q)
+    if isinstance(rm, tuple):
+        ck.violation("C13/harness-crash", "model driver failed on the row-representative stream: %s" % (rm,), {"detail": str(rm)}, no_input=True)
+        return
+    cmds = [y[3:] for y in rm if y.startswith("RR E ")]
+    ri = run_sharded(impl, cmds)
+    if isinstance(ri, tuple) or len(cmds) != len(q):
+        ck.violation("C13/harness-crash", "harness failed on the row-representative stream: %s" % (ri if isinstance(ri, tuple) else "rows missing in the model",), {"detail": str(ri)[:500]}, no_input=True)
+        return
+    vend_ref = set(read_corpus_lines("row_representatives_refused_by_assembler_x86.txt"))
+    refused_now = []
+    acc = 0
+    for c, x in zip(cmds, ri):
+        a = x.split()
+        nm = names[int(c.split()[2])]
+        if len(a) != 9:
+            ck.violation("C13/harness-protocol", "harness could not build %r: %r" % (c, x), {"command": c, "detail": x}, no_input=True)
+            continue
+        verr, e0 = int(a[1]), int(a[2])
+        if verr != 0:
+            ck.violation("C13/row-representative-refused/%s" % nm, "operands generated from a database row by the proven function rep_ops (theorem C13_db_rows_representatives_validate says the "
+                         "validator model accepts them) are refused by InstAPI::validate with %d: %r" % (verr, c), {"command": c, "impl": x})
+            continue
+        if e0 != 0:
+            refused_now.append(c)
+            if c not in vend_ref:
+                ck.violation("C13/row-representative-refused-by-assembler/%s" % nm, "database row representative %r validates but the assembler answers %d (not on "
+                             "corpus/C13/row_representatives_refused_by_assembler_x86.txt)" % (c, e0), {"command": c, "impl": x})
+        else:
+            acc += 1
+    stats.update({"row_representatives": len(cmds), "row_representatives_accepted_by_both": acc, "row_representatives_refused_by_assembler_known": len([c for c in refused_now if c in vend_ref])})
+    if os.environ.get("C13_VENDOR") == "1":
+        open(os.path.join(CORPUS, "row_representatives_refused_by_assembler_x86.txt"), "w").write(
+            "# C13: E commands of row representatives (rep_ops) that validate but that the assembler refuses: known\n" + "".join(c + "\n" for c in refused_now))
+
+
 # ------------------------------------------------------------------ emitter-level hook across CodeHolder switches
 HISTORIES = [[0, 1], [1, 0], [0, 0, 1], [1, 0, 1], [0, 1, 0], [1, 1, 0], [0, 1, 1], [1, 0, 0], [0, 1, 0, 1]]
 
@@ -652,7 +726,7 @@ def run_history_stream(ck, impl, model, rng, stats):
         cmds.append(c); meta.append(("E", None))
         hs = [h for h in HISTORIES if h[-1] == mode]
         for h in rng.sample(hs, 2):
-            for kind in "AB":
+            for kind in "ABC":
                 style = rng.randrange(2)
                 cmds.append("H %s %d %d %s %s" % (kind, style, len(h), " ".join(map(str, h)), " ".join(t[2:])))
                 meta.append((kind, (h, style, len(cmds) - 1)))
@@ -679,6 +753,8 @@ def run_history_stream(ck, impl, model, rng, stats):
         mverr = int(y.split()[1])
         if kind == "A":
             want = (int(cur[4]), 0, cur[5] if int(cur[4]) == 0 else "-")
+        elif kind == "C":
+            want = (int(cur[6]), 0, "-")      # x86::Compiler: emit returns the validator's verdict (kValidateIntermediate); nothing is serialized here
         else:
             want = (int(cur[6]), int(cur[7]), cur[8] if int(cur[6]) == 0 else "-")
         ok = (he, hf) == want[:2] and (he != 0 or hf != 0 or hb == want[2])
@@ -688,9 +764,28 @@ def run_history_stream(ck, impl, model, rng, stats):
             name = c.split()[4 + len(h)]
             ck.violation("C13/emitter-history/%s/%s" % (kind, ">".join(map(str, h))), "one x86::%s attached to CodeHolders of modes %s (%s between) and emitting %r with validation on answers "
                          "(%d,%d,%s); a fresh emitter in mode %d answers %s; the validator model for that mode says %d - the hook must use the validator of the holder attached NOW"
-                         % ("Assembler" if kind == "A" else "Builder", h, "detach" if style == 0 else "holder reset", " ".join(c.split()[4 + len(h):]), he, hf, hb, h[-1], want, mverr),
+                         % ({"A": "Assembler", "B": "Builder", "C": "Compiler"}[kind], h, "detach" if style == 0 else "holder reset", " ".join(c.split()[4 + len(h):]), he, hf, hb, h[-1], want, mverr),
                          {"command": c, "impl": x, "fresh": " ".join(cur), "inst": name})
     stats["emitter_history_cmds"] = checked
+    # AArch64: the tree has no a64 validator (validate() = kOk): switching validation on and re-attaching the emitter must change neither success nor bytes
+    ha = ["HA 0 0 1"] + ["HA %d %d %d" % (v, st_, n) for v in (0, 1) for st_ in (0, 1) for n in (1, 2, 3)]
+    rc, out, err = vlib.sh([impl], inp="\n".join(ha) + "\n", timeout=120)
+    lines = out.split("\n")[:-1]
+    if rc != 0 or len(lines) != len(ha):
+        ck.violation("C13/harness-crash", "harness failed on the a64 history commands: %s" % (err[-300:],), {"commands": ha}, no_input=True)
+    else:
+        ref = lines[0]
+        for c, x in zip(ha, lines):
+            if x != ref or x.split()[1] != "0":
+                ck.violation("C13/a64-emitter-history/%s" % c.replace(" ", "-"), "a64::Assembler (%s) answers %s...; the reference (fresh emitter, validation off) %s...: validation / re-attachment "
+                             "must change neither success nor bytes" % (c, x[:60], ref[:60]), {"command": c, "impl": x, "reference": ref})
+        words = ref.split()[2]
+        rc, o, e = vlib.sh(["llvm-mc", "--disassemble", "-triple=aarch64", "-mattr=+v8.5a,+fp-armv8,+neon"], inp=" ".join("0x" + words[i:i + 2] for i in range(0, len(words), 2)) + "\n", timeout=30)
+        dis = [l.split()[0] for l in o.splitlines() if l.strip() and not l.strip().startswith(".")]
+        stats["a64_history_cmds"] = len(ha)
+        stats["a64_history_llvm_mc_mnemonics"] = " ".join(dis)
+        if "invalid" in e or len(dis) < 32:
+            ck.violation("C13/a64-emitter-bytes", "llvm-mc does not decode the AArch64 instruction list the assembler produced: %s" % e[:300], {"bytes": words}, no_input=True)
 
 
 # ------------------------------------------------------------------ own regeneration path: only this property's gen files, compiled in parallel
@@ -703,13 +798,26 @@ def own_regen(ck, files, timeout=600):
     wgen = os.path.join(ck.work, "gen")
     shutil.rmtree(wgen, ignore_errors=True)
     os.makedirs(wgen)
+    # what changed, and what depends on it (X86Sigs <- forms shards, X86DbRows, X86Forms; the name files have no dependants)
+    changed = set(n for n, t in files.items() if not (os.path.exists(os.path.join(gen, n)) and open(os.path.join(gen, n)).read() == t))
+    if "X86Sigs.v" in changed:
+        changed |= set(n for n in files if n.startswith("X86Forms") or n == "X86DbRows.v")
+    if any(n.startswith("X86Forms") and n != "X86Forms.v" for n in changed):
+        changed.add("X86Forms.v")
+    reuse = []
     for n, t in files.items():
         open(os.path.join(wgen, n), "w").write(t)
+        vo = os.path.join(gen, n[:-2] + ".vo")
+        if n not in changed and os.path.exists(vo) and os.path.getmtime(vo) >= os.path.getmtime(os.path.join(gen, n)):
+            shutil.copy(vo, wgen)          # unchanged file with an up-to-date compiled snapshot: reused
+            reuse.append(n)
+    ck.log("regenerating %d of %d gen files (%d compiled snapshots reused)" % (len(files) - len(reuse), len(files), len(reuse)))
     args = ["-Q", os.path.join(vlib.COQ, "theories"), "Verif", "-Q", wgen, "VerifGen", "-w", "-all"]
     ck.coq_make(["theories/X86Validate/ValidateProofs.vo", "theories/InstNames/NameProofs.vo"])
-    layers = [[n for n in files if n in ("X86Names.v", "A64Names.v", "X86Sigs.v")],
-              [n for n in files if n not in ("X86Names.v", "A64Names.v", "X86Sigs.v", "X86Forms.v")],
-              [n for n in files if n == "X86Forms.v"]]
+    todo = [n for n in files if n not in reuse]
+    layers = [[n for n in todo if n in ("X86Names.v", "A64Names.v", "X86Sigs.v")],
+              [n for n in todo if n not in ("X86Names.v", "A64Names.v", "X86Sigs.v", "X86Forms.v")],
+              [n for n in todo if n == "X86Forms.v"]]
     failed, log = [], ""
 
     def one(n):
@@ -781,6 +889,7 @@ def run(ck):
     form_samples = run_forms(ck, d, impl, model, rng, stats) or []
     form_samples += run_validator_stream(ck, d, impl, model, rng, stats)
     run_history_stream(ck, impl, model, rng, stats)
+    run_row_representatives(ck, d, impl, model, stats)
 
     # proofs
     for n in regen_failed:
@@ -801,10 +910,10 @@ def run(ck):
                                    "C13_signature_kinds_have_db_origin", "C13_db_decorations_present", "C13_db_row_validates", "C13_db_row_validates_plain"],
                    "X86Forms.v": ["C13_db_forms_validate", "C13_db_excluded_forms_refused", "C13_validate_operand_count_refuted"],
                    "X86Sigs.v": ["C13_validator_tables_wf", "C13_signature_rows_present", "C13_db_row_signature_stage", "C13_validate_refuses_gpq_in_32bit", "C13_db_forms_validate", "C13_db_excluded_forms_refused", "C13_validate_operand_count_refuted"],
-                   "X86Names.v": ["C13_find_correct", "C13_name_tables_in_bounds", "C13_name_roundtrip_x86", "C13_alias_roundtrip_x86",
+                   "X86Names.v": ["C13_api_methods_name_their_ids_x86", "C13_find_correct", "C13_name_tables_in_bounds", "C13_name_roundtrip_x86", "C13_alias_roundtrip_x86",
                                   "C13_string_to_inst_id_correct_x86", "C13_string_to_inst_id_none_x86", "C13_alias_formats_roundtrip_x86",
                                   "C13_alias_table_from_formats_x86"],
-                   "A64Names.v": ["C13_name_tables_in_bounds", "C13_name_roundtrip_a64", "C13_name_roundtrip_a64_unique", "C13_string_to_inst_id_correct_a64",
+                   "A64Names.v": ["C13_api_methods_name_their_ids_a64", "C13_name_tables_in_bounds", "C13_name_roundtrip_a64", "C13_name_roundtrip_a64_unique", "C13_string_to_inst_id_correct_a64",
                                   "C13_string_to_inst_id_none_a64", "C13_a64_single_range_failures", "C13_a64_single_range_unsorted_letters",
                                   "C13_name_roundtrip_a64_single_range_refuted"]}
     blamed = set(t for n in regen_failed for t in THEOREM_GEN.get("X86Forms.v" if n.startswith("X86Forms") else n, []))
